@@ -338,7 +338,15 @@ func checkC22(c *Ctx) *report.Result {
 					if writers[k.Path] == nil {
 						writers[k.Path] = map[string]bool{}
 					}
-					writers[k.Path][fnName(outerFn(at.Parent()))] = true
+					// attribute the store to the routine on whose behalf it is made: the key-event routine or
+					// the FF00 write handler if one of them is on the call stack, else the storing function
+					who := fnName(outerFn(at.Parent()))
+					for _, f := range it.Stack {
+						if f == keyFn || (len(wev.Callees) > 0 && f == wev.Callees[len(wev.Callees)-1]) {
+							who = fnName(f)
+						}
+					}
+					writers[k.Path][who] = true
 				}
 			}
 		},
